@@ -269,3 +269,12 @@ example : (Asm.call Gen.Asm.wrap_IndexByte 800
       args := fun n => if n == "b_base" then 8192 else if n == "b_len" then 40 else if n == "c" then 0xAB00 + 0x6B else 0,
       tail := none, mem := fun i => if i = 8192 + 35 then 0x4B else 0x2E, loads := [], out := none }).out = some 35 := by decide +kernel
 end C13
+
+namespace C13
+/-- the copies of the three assembly files that toolchains before go1.22 build (`//go:build amd64 && !go1.22`: `indexbyte_amd64.s`,
+    `count_amd64.s`, `index_non_ascii_amd64.s`) translate to **the same programs**, body by body and wrapper by wrapper, as the
+    go1.22 files — so `whole_bodies` and `kernel_entries` are theorems about them as well -/
+theorem pre122_same : Gen.Asm.pre122_pairs.map Prod.fst = Gen.Asm.pre122_pairs.map Prod.snd := rfl
+
+example : Gen.Asm.pre122_pairs.length = 11 := rfl
+end C13
